@@ -52,11 +52,29 @@ def run_all(ids, tier, head):
             json.dump(meta, open(mp, "w"), indent=1)
             continue
         t0 = time.time()
+        cross = {}
         try:
-            c = sh([os.path.join(VERIF, "bin", "check"), pid, "--tier", tier], cwd=VERIF, env=dict(os.environ, VERIF_STALL="150"))
+            if not os.environ.get("SEEDED_CROSS_ONLY"):
+                c = sh([os.path.join(VERIF, "bin", "check"), pid, "--tier", tier], cwd=VERIF, env=dict(os.environ, VERIF_STALL="150"))
+            else:
+                c = None
+            # checks of other properties that anchor the changed code (meta.json "cross_checks")
+            for xp in meta.get("cross_checks", []):
+                xc = sh([os.path.join(VERIF, "bin", "check"), xp, "--tier", tier], cwd=VERIF, env=dict(os.environ, VERIF_STALL="150"))
+                xv = [l for l in xc.stdout.splitlines() if l.startswith("VIOLATION")]
+                xw = [l[len("[check] "):] for l in xc.stdout.splitlines() if l.startswith("[check] violated") or l.startswith("[check] broken") or "BROKEN obligations" in l]
+                cross[xp] = dict(exit=xc.returncode, detected=bool(xv) and xc.returncode == 1,
+                                 concrete_failing_input=any("no-failing-input-found" not in v for v in xv) if xv else False,
+                                 reported=[w[:300] for w in xw][:3])
         finally:
             sh(["git", "-C", REPO, "checkout", "--", "."])
             sh(["git", "-C", REPO, "clean", "-fdq"])
+        if cross:
+            meta.setdefault("checks", {})[tier + ":cross"] = cross
+            json.dump(meta, open(mp, "w"), indent=1)
+            print("%s  %s  cross: %s" % (mid, tier, {k: v["detected"] for k, v in cross.items()}))
+        if c is None:
+            continue
         out = c.stdout
         vio = [l for l in out.splitlines() if l.startswith("VIOLATION")]
         why = [l[len("[check] "):] for l in out.splitlines() if l.startswith("[check] violated") or l.startswith("[check] broken") or "BROKEN obligations" in l]
